@@ -148,7 +148,7 @@ func (c *channels) monitorTopic(ctx context.Context, sub coreiface.PubSubSubscri
 
 		// Make sure the message is coming from the correct peer
 		// Filter out all messages that didn't come from the second peer
-		if msg.From().String() == c.selfID.String() {
+		if msg.From().String() != p.String() {
 			continue
 		}
 
